@@ -63,6 +63,7 @@ def gen_case(rng, kind):
             "npartitions": int(rng.choice([1, 2, 3, 7, 11, 12, 16])),
             "geometry": [None, "ga", "gb"][int(rng.integers(3))],
             "multi": ["none", "none", "list", "glob"][int(rng.integers(4))],
+            "rewrite": bool(rng.random() < 0.3),
             "seed": int(rng.integers(2 ** 31))}
 
 
@@ -105,10 +106,21 @@ def check_case(ctx, case):
                 p = os.path.join(root, f"d{di}.parq")
                 npart = max(1, min(case["npartitions"], len(src)))
                 ddf = dd.from_pandas(src, npartitions=npart, sort=False)
+                ow = bool(case.get("rewrite")) and di == 0
+                if ow:
+                    # history: another dataset was written to, and read from, the same path before
+                    old_df = src.iloc[::-1].iloc[: max(1, len(src) // 2)].assign(rid=src["rid"].iloc[0] + 5 * 10 ** 6)
+                    odf = dd.from_pandas(old_df, npartitions=max(1, min(3, len(old_df))), sort=False)
+                    if case["writer"] == "dask":
+                        guarded("write-previous", lambda: odf.to_parquet(p) or 1)
+                    else:
+                        guarded("write-previous", lambda: (odf.pack_partitions_to_parquet(p, npartitions=2, p=8), 1)[1])
+                    guarded("read-previous", lambda: read_parquet_dask(p).geometry.partition_bounds)
                 if case["writer"] == "dask":
-                    r = guarded("write", lambda: ddf.to_parquet(p) or 1)
+                    r = guarded("write", lambda: ddf.to_parquet(p, overwrite=True) or 1 if ow else ddf.to_parquet(p) or 1)
                 else:
-                    r = guarded("write", lambda: (ddf.pack_partitions_to_parquet(p, npartitions=npart, p=8), 1)[1])
+                    r = guarded("write", lambda: (ddf.pack_partitions_to_parquet(p, npartitions=npart, p=8,
+                                                                                 overwrite=ow), 1)[1])
                 if r is None:
                     return
                 paths.append(p)
@@ -125,7 +137,8 @@ def check_case(ctx, case):
             act = rd.geometry.name
             nparts = len(parts)
             ctx.case([spec["cols"], case["writer"], case["npartitions"], g, case["multi"]], nontrivial=nparts >= 2)
-            ctx.sig(kind, case["writer"], f"np{nparts if nparts < 11 else '11+'}", str(g), case["multi"])
+            ctx.sig(kind, case["writer"], f"np{nparts if nparts < 11 else '11+'}", str(g), case["multi"],
+                    "rewritten-path" if case.get("rewrite") else "-")
             # extents recomputed from the rows actually stored in each loaded partition
             true_b = {c: [list(total_ref(kinds[c], gg.pylist(pt[c].array))) for pt in parts] for c in ("ga", "gb")}
             # (a) cached table
